@@ -14,7 +14,7 @@ trap cleanup EXIT
 cd "$WT"
 export PYTHONPATH="$WT" PYTHONHASHSEED=0 PYTHONDONTWRITEBYTECODE=1
 /venv/bin/python "$M/demo.py" >/dev/null 2>&1; echo "demo without change: exit $?"
-git apply "$M/patch.diff" || { echo "patch does not apply"; exit 2; }
+git apply "$M/patch.diff" 2>/dev/null || git apply --3way "$M/patch.diff" 2>/dev/null || patch -p1 -F3 -s < "$M/patch.diff" || { echo "patch does not apply"; exit 2; }
 /venv/bin/python "$M/demo.py" >/dev/null 2>&1; echo "demo with change: exit $?"
 /venv/bin/python -m pytest -q -p no:cacheprovider --timeout=900 2>&1 | tail -1
 rsync -a --exclude .git --exclude replays --exclude work --exclude seeded /verif/ "$VC/"
